@@ -30,6 +30,93 @@ def rewrite(t, f):
     return r if r is not None else t2
 
 
+def slice_view(t):
+    """(base, offset) if term t denotes a tail `base[offset..]` of another slice (obtained with `get(offset..)`, indexing by
+    `offset..`, or a tail of such a tail); offset is a term, None when t is not a view"""
+    t = unref(t)
+    while t[0] in ("deref", "ref", "inner"):
+        t = unref(t[1])
+    inner = None
+    if t[0] == "payload":
+        x = unref(t[1])
+        if x[0] == "call" and x[1] == "slice_get" and len(x[2]) == 2:
+            inner = x
+    elif t[0] == "call" and t[1] == "index" and len(t[2]) == 2:
+        inner = t
+    if inner is None:
+        return None
+    rg = unref(inner[2][1])
+    if not (rg[0] == "agg" and rg[1].endswith("ops::RangeFrom::RangeFrom") and len(rg[2]) == 1):
+        return None
+    lo = unref(rg[2][0])
+    base = inner[2][0]
+    bv = slice_view(base)
+    if bv is not None:
+        return bv[0], ("bin", "Add", bv[1], lo)
+    return base, lo
+
+
+def _add(off, x):
+    if off is None or off == ("int", 0):
+        return x
+    if x == ("int", 0):
+        return off
+    return ("bin", "Add", off, x)
+
+
+def normalize_accesses(events):
+    """Accesses to a tail view of the storage (`s.get(b..)?[..k]`) are re-expressed as accesses to the storage itself
+    (`s[b..b+k]`), and the events that merely form such a view are dropped, so that the rules see one shape."""
+    import copy
+    out = []
+    acc = [e for e in events if e.kind == "call" and e.info.get("model") in ("index", "slice_get") and len(e.args) == 2]
+    for e in events:
+        if e not in acc:
+            out.append(e)
+            continue
+        base, idx = e.args[0], unref(e.args[1])
+        me = ("call", e.info["model"], (e.args[0], e.args[1]))
+        # a view that another access is made through is not an access of its own
+        if idx[0] == "agg" and idx[1].endswith("ops::RangeFrom::RangeFrom"):
+            used = False
+            for e2 in acc:
+                if e2 is not e:
+                    v2 = slice_view(e2.args[0])
+                    if v2 is not None and any(x == me for x in subterms(e2.args[0])):
+                        used = True
+            if used:
+                continue
+        v = slice_view(base)
+        off = None
+        if v is not None:
+            base, off = v
+        new_idx = None
+        if idx[0] == "agg" and idx[1].endswith("ops::RangeTo::RangeTo") and len(idx[2]) == 1:
+            new_idx = ("agg", "std::ops::Range::Range", (off if off is not None else ("int", 0), _add(off, unref(idx[2][0]))))
+        elif idx[0] == "agg" and idx[1].endswith("ops::RangeFrom::RangeFrom") and len(idx[2]) == 1:
+            new_idx = ("agg", "std::ops::Range::Range", (_add(off, unref(idx[2][0])), ("call", "len", (base,))))
+        elif idx[0] == "agg" and idx[1].endswith("ops::Range::Range") and len(idx[2]) == 2 and off is not None:
+            new_idx = ("agg", "std::ops::Range::Range", (_add(off, unref(idx[2][0])), _add(off, unref(idx[2][1]))))
+        elif idx[0] != "agg" and off is not None:
+            new_idx = _add(off, idx)
+        if new_idx is None:
+            out.append(e)
+            continue
+
+        def view_len(x):
+            if x[0] == "call" and x[1] == "len" and x[2]:
+                vv = slice_view(x[2][0])
+                if vv is not None:
+                    return ("bin", "Sub", ("call", "len", (vv[0],)), vv[1])
+            return None
+        new_idx = rewrite(new_idx, view_len)
+        e2 = copy.copy(e)
+        e2.args = (base, new_idx)
+        e2.info = dict(e.info)
+        out.append(e2)
+    return out
+
+
 class Unit:
     def __init__(self, m1, world, kind, body, self_adt):
         self.m1 = m1
@@ -51,6 +138,7 @@ class Unit:
         for b in self.bodies:
             for e in env.flat_events(b, self_adt, world):
                 self.events.append(e)
+        self.events = normalize_accesses(self.events)
         self.label = "%s|%s" % (world["name"], kind)
 
     def result(self):
@@ -108,6 +196,9 @@ class M1:
 
         def f(x):
             if x[0] == "call" and x[1] == "len" and x[2]:
+                v = slice_view(x[2][0])
+                if v is not None:
+                    return ("bin", "Sub", f(("call", "len", (v[0],))) or ("call", "len", (v[0],)), v[1])
                 role, adt = R.classify(x[2][0])
                 if role == "store" and adt and R.impl[adt].get("consuming"):
                     root, fl = place_path(x[2][0])
